@@ -258,6 +258,7 @@ def build(chk):
             if k and depth_cases != set(range(1, max(2, d))):
                 chk.engine_error('C16.%s: tree counts reached %r, expected 1..%d' % (tag, sorted(depth_cases), max(1, d - 1)))
     build_helpers(chk)
+    crosscheck_builders(chk)
     bounded_native(chk)
     chk.assumptions += [
         'd = %s columns, each with at least two distinct values (a constant column makes Kendall tau NaN: excluded and '
@@ -500,3 +501,106 @@ def build_helpers(chk, prefix='C16', parts=('identify', 'check_constraint', 'chi
                        clause='for an edge of tree k+1 >= 2 the two arguments are uni_matrix[L, x] and uni_matrix[R, y] where (L, x) '
                               'is the conditioned pair of one parent and (R, y) that of the other: exactly the cells the previous '
                               'tree writes (C17, C19: no uninitialised read)  [all d <= 7, all levels]'))
+
+
+# ------------------------------------------------------------------------------------------------------------------
+# CPython cross-check of the executor on the tree builders: with CONCRETE tau matrices (random, ties included) the real
+# builders are run natively and in the executor; both must produce the same trees (a mismatch is an engine error)
+# ------------------------------------------------------------------------------------------------------------------
+
+def crosscheck_builders(chk):
+    import random
+    import warnings
+    from fractions import Fraction
+    import numpy as np
+    warnings.simplefilter('ignore')
+    import copulas.multivariate.tree as T
+    from copulas.bivariate.base import CopulaTypes
+    rnd = random.Random(77 + (chk.seed or 0))
+    cases = 0
+    dims = (3, 4, 5) if chk.tier == 'quick' else (3, 4, 5, 6)
+    reps = 3 if chk.tier == 'quick' else 12
+    for d in dims:
+        for vt in ('center', 'direct', 'regular'):
+            for rep in range(reps):
+                # one symmetric tau matrix per level, entries on a coarse grid so that ties occur
+                taus = []
+                for k in range(d - 1):
+                    m = d - k
+                    M = [[0.0] * m for _ in range(m)]
+                    for i in range(m):
+                        for j in range(i + 1, m):
+                            M[i][j] = M[j][i] = rnd.choice([-0.8, -0.5, -0.25, 0.1, 0.25, 0.5, 0.6, 0.9]) if rep % 2 else \
+                                round(rnd.uniform(-0.95, 0.95), 3)
+                        M[i][i] = 1.0
+                    taus.append(M)
+                # ---- native --------------------------------------------------------------------------------------
+                class Stub(object):
+                    copula_type, theta = CopulaTypes.FRANK, 1.0
+                saved = (T.Bivariate.select_copula, T.Tree.prepare_next_tree)
+
+                def prep(self):
+                    for e in self.edges:
+                        e.U = np.full((2, 3), 0.5)
+                T.Bivariate.select_copula = classmethod(lambda cls, X: Stub())
+                T.Tree.prepare_next_tree = prep
+                native = []
+                try:
+                    prev = np.full((3, d), 0.5)
+                    for k in range(min(d - 1, 3)):
+                        t = T.get_tree(vt)
+                        t.fit(k, d - k, np.array(taus[k]), prev)
+                        native.append([(int(e.L), int(e.R), tuple(sorted(int(x) for x in e.D))) for e in t.edges])
+                        prev = t
+                except Exception as e:          # noqa
+                    native = 'raised %s' % type(e).__name__
+                finally:
+                    T.Bivariate.select_copula, T.Tree.prepare_next_tree = saved
+                # ---- executor --------------------------------------------------------------------------------------
+                I = engine.new_interp()
+                gm.install_rootfinders(I)
+                vine.install_contracts(I)
+
+                def prep_summary(interp, args, kwargs):
+                    n = Sym(gm.N)
+                    for e in args[0].attrs['edges']:
+                        if e.attrs.get('U') is None:
+                            e.attrs['U'] = libmodel.RowsArr([Lane(ir.var('U0_%d@i' % id(e)), n), Lane(ir.var('U1_%d@i' % id(e)), n)])
+                I.summaries[TREE + 'Tree.prepare_next_tree'] = prep_summary
+
+                def body(c, I=I, d=d, vt=vt, taus=taus):
+                    out = []
+                    prev = Arr2([Lane(ir.var('um%d@i' % j), Sym(gm.N)) for j in range(d)], Sym(gm.N))
+                    for k in range(min(d - 1, 3)):
+                        t = I.call_qual(TREE + 'get_tree', [vt])
+                        tau = libmodel.ConcArr([[Sym(ir.const(Fraction(str(x)))) for x in row] for row in taus[k]])
+                        I.call_method(t, 'fit', [k, d - k, tau, prev])
+                        out.append([(int(ir._num(libmodel.to_term(e.attrs['L']))), int(ir._num(libmodel.to_term(e.attrs['R']))),
+                                     tuple(sorted(int(x) for x in e.attrs['D']))) for e in t.attrs['edges']])
+                        prev = t
+                    c.out['trees'] = out
+                    return None
+                try:
+                    with vine.mode():
+                        res, _ = engine.run_paths(I, body, max_paths=2000)
+                except Exception as e:          # noqa
+                    chk.engine_error('cross-check of the tree builders: executor crashed: %s' % str(e)[:200])
+                    return
+                sym = [r.state['trees'] for r in res if r.outcome == 'return' and r.state]
+                other = [r for r in res if r.outcome != 'return']
+                cases += 1
+                if isinstance(native, str):
+                    if sym and not other:
+                        chk.engine_error('cross-check of the tree builders (%s, d=%d, taus=%r): CPython %s, the executor returns'
+                                         % (vt, d, taus[0], native))
+                        return
+                    continue
+                # ties in argsort may legitimately give several executor paths: CPython's result must be one of them
+                if native not in sym:
+                    chk.engine_error('cross-check of the tree builders (%s, d=%d): CPython builds %r, the executor %r (tau %r)'
+                                     % (vt, d, native, sym[:2], taus[0]))
+                    return
+    chk.crosschecks = getattr(chk, 'crosschecks', [])
+    chk.crosschecks.append({'function': 'Tree.fit / _build_first_tree / _build_kth_tree (three types)', 'points': cases,
+                            'what': 'concrete random tau matrices with ties, d in %r, up to three levels: same (L, R, D) lists'
+                                    % (dims,)})
